@@ -52,6 +52,10 @@ def run(ctx):
     # skip and parse must accept the same names (shared with C01)
     import c01
     c01.rule_skip(ctx, F)
+    # ... and the parser must know whether the name it has read is compressed (flat-slice fast paths rely on it)
+    import c03
+    c03.rule_flag(ctx, F)
+    rule_seqeq(ctx, F)
 
 
 # ---------------------------------------------------------------------------
@@ -745,3 +749,41 @@ def run_thorough(ctx):
     # type-level part of the property: compile-fail witnesses (rules/witness.py)
     import witness
     witness.run(ctx, "C02")
+
+
+# ---------------------------------------------------------------------------
+# compressors compare whole label sequences
+# ---------------------------------------------------------------------------
+
+def rule_seqeq(ctx, F):
+    """A compressor may only point at a remembered name that *is* the name (suffix) being written.  Comparing two label
+    iterators with `zip(..).all(..)` stops at the shorter one: `www.www.example.com` being written matches its own
+    half-written suffix.  Sequence equality has to be length-aware (`Iterator::eq`, slice `==`)."""
+    R = "C02.seqeq"
+    ctx.floor(R, 1)
+    n = 0
+    anchored = 0
+    for p, b in sorted(F.bodies.items()):
+        if "::test" in p or not re.match(r"^<?base::(message_builder|name)::", p):
+            continue
+        for bb, tt in b.calls():
+            fn = tt["fn"] or ""
+            if re.search(r"Iterator::eq$", fn) and "StaticCompressor" in p:
+                anchored += 1
+            if not re.search(r"Iterator::(all|any)$", fn):
+                continue
+            recv = b.term_of_operand(tt["args"][0])
+            z = [s for s in walk(recv) if s[0] == "call" and re.search(r"Iterator::zip$", s[1] or "")]
+            if not z:
+                continue
+            labelish = any("Label" in str(x) for s in z for x in (s[4] if len(s) > 4 and s[4] else ()))
+            if not labelish and "Label" not in " ".join(str(x) for x in (tt.get("targs") or [])):
+                continue
+            n += 1
+            ctx.ob(R, b, "label sequences are not compared with zip().all()", False,
+                   "%s decides whether two label sequences are equal with zip(..).%s(..), which ignores the longer one's tail: a "
+                   "name is taken for its own prefix / suffix and the compressor points at the wrong name (or at the name being "
+                   "written)" % (p.split("::{closure")[0].split("::")[-1], fn.split("::")[-1]), b.where(bb))
+    ctx.ob(R, "base::message_builder::StaticCompressor", "compares names with a length-aware sequence equality", anchored >= 1,
+           "StaticCompressor::get no longer compares the name with the remembered one through Iterator::eq")
+    ctx.call_sites += n
